@@ -1665,6 +1665,9 @@ class TestGraph(object):
             # TODO: cannot get nodes by (prefix tree index) name due to current limitations in the bridged form
             old_bridges = self.get_nodes("name", test_node.bridged_form)
             for bridge in old_bridges:
+                # the regex of the bridged form could also match longer names ending in this one
+                if not re.search(bridge.bridged_form, test_node.params["name"]):
+                    continue
                 test_node.bridge_with_node(bridge)
             children = [test_node]
 
